@@ -13,6 +13,29 @@ extern "C" {
     fn raise(sig: i32) -> i32;
 }
 
+/// valgrind client request (no-op when not running under valgrind)
+#[inline(never)]
+fn vg_request(req: u64, addr: *const u8, len: usize) -> u64 {
+    let args: [u64; 6] = [req, addr as u64, len as u64, 0, 0, 0];
+    let mut result: u64 = 0;
+    unsafe {
+        std::arch::asm!(
+            "rol rdi, 3",
+            "rol rdi, 13",
+            "rol rdi, 61",
+            "rol rdi, 51",
+            "xchg rbx, rbx",
+            in("rax") args.as_ptr(),
+            inout("rdx") result,
+            out("rdi") _,
+            options(nostack)
+        );
+    }
+    result
+}
+const MAKE_MEM_UNDEFINED: u64 = 0x4d43_0001;
+const MAKE_MEM_DEFINED: u64 = 0x4d43_0002;
+
 // A bump allocator: the allocation path depends only on (size, alignment), never on heap history, so that allocator
 // internals (tcache / bin state of the libc malloc) cannot make the traces of two iterations differ.
 mod bump {
@@ -174,6 +197,7 @@ fn main() {
     let tname = &args[1];
     let target = TARGETS.iter().position(|t| t == tname).expect("unknown target") as u32;
     let signal = args.len() > 3 && args[3] == "signal";
+    let taint = args.len() > 3 && args[3] == "taint";
     let secrets: Vec<Vec<u8>> = std::fs::read_to_string(&args[2]).unwrap().lines().filter(|l| !l.is_empty()).map(|l| unhex(l.trim())).collect();
     let maclen = match target {
         13 => 16,
@@ -211,7 +235,23 @@ fn main() {
         if signal {
             unsafe { raise(10) };
         }
+        if taint {
+            // mark the secret "undefined": memcheck then reports every conditional jump that depends on it
+            vg_request(MAKE_MEM_UNDEFINED, sec.as_ptr(), 64);
+            if (13..=16).contains(&target) {
+                let c = prep.mac_secret.code();
+                vg_request(MAKE_MEM_UNDEFINED, c.as_ptr(), c.len());
+            }
+            if target == 17 {
+                vg_request(MAKE_MEM_UNDEFINED, prep.tag_secret.0.as_ptr(), 16);
+            }
+        }
         ct_region(target, sec.as_ptr(), out.as_mut_ptr(), &mut prep);
+        if taint {
+            vg_request(MAKE_MEM_DEFINED, out.as_ptr(), 64);
+            vg_request(MAKE_MEM_DEFINED, sec.as_ptr(), 64);
+            vg_request(MAKE_MEM_DEFINED, prep.buf.as_ptr(), prep.buf.len());
+        }
         if signal {
             unsafe { raise(10) };
         }
